@@ -493,11 +493,68 @@ class Program:
         self.functions = {}
         for name, fd in d['functions'].items():
             self.functions[name] = Function(name, fd, self)
+        self._apply_local_map()
         self._callers = None
         self._slots = None
         self._cg = None
         self._variants = None
         self._cons = {}
+
+    def _apply_local_map(self):
+        """rules name locals as the pinned tree does (ref/locals.json).  A local of the current tree whose name the reference does
+        not know is given the name of the reference local that disappeared from the same function, when type and relative order
+        leave exactly one candidate: a pure rename then leaves every anchor in place.  Ambiguous cases are left alone."""
+        import os
+        self.local_renames = {}
+        if os.environ.get('VERIF_NO_LOCALMAP'):
+            return
+        p = os.path.join(os.path.dirname(os.path.dirname(os.path.abspath(__file__))), 'ref', 'locals.json')
+        if not os.path.exists(p):
+            return
+        ref = json.load(open(p))
+        for f in self.functions.values():
+            if f.decl:
+                continue
+            r = ref.get(base(f.name) + '@' + (f.file or ''))
+            if not r:
+                continue
+            cur = [i for i in f.all_insts() if i.op == 'alloca' and i.var]
+            cur_names = [i.var for i in cur]
+            ref_names = [n for n, _ in r]
+            if cur_names == ref_names:
+                continue
+            from collections import Counter
+            cc = Counter(cur_names)
+            missing = []
+            seen_ref = Counter()
+            for k, (n, t) in enumerate(r):
+                seen_ref[n] += 1
+                if seen_ref[n] > cc.get(n, 0):
+                    missing.append((k, n, t))                                              # reference locals that vanished
+            rc_ = Counter(ref_names)
+            seen_cur = Counter()
+            new = []
+            for k, i in enumerate(cur):
+                seen_cur[i.var] += 1
+                if seen_cur[i.var] > rc_.get(i.var, 0):
+                    new.append((k, i))                                                    # current locals unknown to the reference
+            if not missing or not new:
+                continue
+            # match in order, type by type
+            used = set(); mapped_ids = set()
+            for k, i in new:
+                cands = [(mk, n) for mk, n, t in missing if t == (i.vty or '') and mk not in used]
+                if not cands:
+                    continue
+                # the candidate must be unambiguous among the not yet matched unknown locals of that type
+                same_type_new = [x for _, x in new if (x.vty or '') == (i.vty or '') and x.id not in mapped_ids]
+                if len(cands) != len(same_type_new) and len(cands) != 1:
+                    continue
+                n = cands[0][1]
+                used.add(cands[0][0])
+                self.local_renames.setdefault(f.name, {})[i.var] = n
+                i.var = n
+                mapped_ids.add(i.id)
 
     def fn(self, name):
         f = self.functions.get(name)
